@@ -107,6 +107,9 @@ func c11Run(m c11Model, x, t *ref.T, init c11Weights, defaultInit bool, steps in
 	}
 	opt := m.lr.opt()
 	lr := m.lr.value()
+	// one activation object and one loss object for the whole run, as in a real training program
+	rt.ObjCache = map[string]any{}
+	defer func() { rt.ObjCache = nil }()
 	xr, tr := rt.Make(x, false), rt.Make(t, false)
 
 	exact := init // exact gradient-descent trajectory
@@ -133,7 +136,7 @@ func c11Run(m c11Model, x, t *ref.T, init c11Weights, defaultInit bool, steps in
 				return core.Fail("step %d Flatten: %v", s, err)
 			}
 		}
-		l, err := lossCompute(m.loss, y, tr)
+		l, err := rt.Apply(ref.Op{K: m.loss}, []tensor.Tensor{y, tr})
 		if err != nil {
 			return core.Fail("step %d loss: %v", s, err)
 		}
